@@ -298,7 +298,7 @@ fn list(c: &Cluster, node: usize, svc: &str) -> Result<BTreeSet<(String, u32, bo
 
 pub fn run_case(case: &Case, work: &Path, seed: u64) -> CaseReport {
     let n = CASE_NO.fetch_add(1, Ordering::SeqCst);
-    let mut c = match Cluster::new(work, &format!("c15-{}", n), 3, seed + n, BTreeMap::new()) {
+    let mut c = match Cluster::new_formed(work, &format!("c15-{}", n), 3, seed + n, BTreeMap::new()) {
         Ok(c) => c,
         Err(e) => return discard(e),
     };
@@ -314,9 +314,6 @@ pub fn run_case(case: &Case, work: &Path, seed: u64) -> CaseReport {
 
 fn run_case_inner(case: &Case, c: &mut Cluster) -> CaseReport {
     let mut labels: BTreeSet<String> = BTreeSet::new();
-    if let Err(e) = c.form() {
-        return discard(format!("cluster did not form before any generated op: {}", e));
-    }
     // model: (svc, addr) -> (owner, weight)
     let mut model: BTreeMap<(usize, u8), (Owner, u8)> = BTreeMap::new();
     let mut conns: Vec<Option<GrpcConn>> = vec![None, None, None];
